@@ -406,5 +406,31 @@ def replay(d):
 
 
 SELFTEST_NOTES = """
-(filled in after the binding demonstration; see bottom of file)
+Binding demonstration (2026-10-04, quick tier, scratch worktree /tmp/wt-c19 via VERIF_SRC, removed afterwards).
+Unchanged tree: held with VERIF_SEED=20261004 and 12345 (two KNOWN-FINDING lines, see known_findings.jsonl); with both
+candidate patches hooks/fix-c19-*.diff applied: held with no KNOWN-FINDING line (VERIF_SEED=7).
+
+Mutations of the anchored sources (each compiles; VIOLATION = caught):
+ M1 xfloat.c xsfToNative: fracDenormalize(..., SF_LgLgBase, 0) instead of SF_HasNorm1 (hidden bit not restored)
+      -> VIOLATION enumS/rand: "value changed by xfFrNative/xfToNative" (subnormal singles)
+ M2 xfloat.c fracNormalize: *pexponent -= ix1 (off by one)            -> VIOLATION (subnormals, both widths)
+ M3 xfloat.c xdfFrNative zero case: sign replaced by false            -> VIOLATION enumD/rand (-0.0 double), also X events
+ M4 of_cfold.c ArrToSFlo: strtof(s, NULL) instead of (SFloat) atof(s) (single instead of double rounding at compile time)
+      -> VIOLATION literals hard:39/hard:40 ("1.000000059604644775390626", "1.0000000596046448") under q2-interp, q2-ao, q2-c
+ M5 util.c DFloatSprint: DBL_DIG instead of DBL_DIG+2                 -> VIOLATION literals enumD:* under q2-c
+ M6 xfloat.c xsfToNative overflow test `>' instead of `>='            -> not a violation (no native value is affected; C19 does
+      not speak about files written elsewhere); reported as drift: X events "nat" differs from XToNative (483.. of xenum)
+ M7 foam_c.c fiDFloAssemble: sig0/sig1 swapped                        -> VIOLATION enumD "fiFloAssemble(fiFloDissemble(x)) differs from x"
+ M8 foam.c foamToBuffer case 'f': bufWrSFloat(buf, (SFloat)(x + 0.0)) -> VIOLATION enumS/rand "value changed by foamToBuffer/foamFrBuffer"
+      and literal -0.0 under q2-interp/q2-ao-interp
+Corrupted records (TraceXFloat, POSTCONDITION Accepted false = rejected):
+ one byte of `back' of a normal single flipped -> VIOL "value changed by xfFrNative/xfToNative"; top bit of `fasm' flipped ->
+ VIOL "fiFloAssemble(fiFloDissemble(x)) differs from x"; {"ev":"Fault"} inserted -> end of trace not reached, rejected;
+ one fraction byte of a q2-ao-interp literal observation changed -> VIOL "the literal denotes different values under two
+ configurations"; idok set to 0 -> VIOL "assemble(dissemble(x)) differs from x in the running program".
+ A flipped low bit in `back' of a NaN, or a flipped byte of `xs', is (correctly) drift only.
+Coverage: XFloatSmall runs with -coverage 1; the check fails as machinery error if any of the 11 actions
+ (4 Save branches, 5 Load branches, TakeApart, Reassemble) has taken = 0.
+Model development notes: 0 drift on the unchanged tree over all enumerated/random/foreign events, i.e. the transcription
+ reproduces class, sign, exponent, fraction bytes, portable bytes and loaded value of the real code everywhere it was tried.
 """
